@@ -590,14 +590,18 @@ pub fn analyze(sc: &StreamScenario, out: &StreamOutcome) -> Analysis {
                                     let later = model.expects.iter().skip(nf + 1).position(|e| render_expect(e) == got);
                                     let prev_same = nf > 0 && render_expect(&model.expects[nf - 1]) == got;
                                     let version_error_for_non_ver = matches!(res, AppRes::IncompatibleVersion(_)) && !model.has_ver[nf];
-                                    let kind = if let Some(k) = later {
+                                    // a version error for this frame although the wire does not call for
+                                    // one (not a VER, or a VER reporting 9 / gate off): the gate's doing,
+                                    // unless it is plainly the next frame's due rejection (a shift)
+                                    let undue_version_error = matches!(res, AppRes::IncompatibleVersion(_));
+                                    let _ = version_error_for_non_ver;
+                                    let kind = if undue_version_error && later != Some(0) {
+                                        "gate.wrong_decision"
+                                    } else if let Some(k) = later {
                                         // the result of a later frame: something in between got lost
                                         if matches!(exp, Expect::BadVersion(_)) && k == 0 && matches!(res, AppRes::Pkt(_)) && !prev_same {
                                             // ... and what got lost is exactly the version error due here
                                             "gate.rejection_lost"
-                                        } else if version_error_for_non_ver && prev_same {
-                                            // a stale version error repeated for a frame that is not a VER
-                                            "gate.wrong_decision"
                                         } else if k == 0 {
                                             "order.frame_lost"
                                         } else {
